@@ -316,6 +316,34 @@ def case_krylov(T, which, fname, n, tiny=False, max_iters=None):
     T.eq(f"{which}:{fname}(A) v == Q f(T) e1 ||v||", got.real if np.iscomplexobj(got) or (T.sym and got.dtype.kind == 'c') else got, want, dtype=False)
 
 
+def case_krylov_columns(T, which, fname, n, max_iters=None):
+    """f(A) @ I through the Lanczos / Arnoldi algorithms for A = blockdiag(P diag(w) P^-1, r_2, ..): the columns of the operand have Krylov
+    spaces of different dimension (2 for e_0, e_1; 1 for the others), all exhausted within max_iters"""
+    from .c07 import krylov_block_operator
+    dt = 'float64'
+    Am, Pm, Pinv, w, rest = krylov_block_operator(T, which, n)
+    from cola.linalg.decompositions.decompositions import Arnoldi, Lanczos
+    alg = Lanczos(max_iters=max_iters or n, tol=1e-9) if which == "lanczos" else Arnoldi(max_iters=max_iters or n, tol=1e-9)
+    Aop = cola.PSD(ops.Dense(Am)) if which == "lanczos" else ops.Dense(Am)
+    F = call(fname, Aop, alg)
+    z = K.S(T, 0)
+    f2 = Pm @ _diagf(T, fname, w, dt) @ Pinv
+    rows = [[z for _ in range(n)] for _ in range(n)]
+    for i in range(2):
+        for j in range(2):
+            rows[i][j] = _it(T, f2[i, j]) if T.sym else float(f2[i, j])
+    for i in range(2, n):
+        rows[i][i] = fapply(T, base(fname), rest[i - 2])
+    want = K.mat(T, rows, dt)
+    got = F @ K.eye_like(T, n, dt)
+    T.eq(f"{which}:{fname}(A) @ I == f(A)", got.real if np.iscomplexobj(got) or (T.sym and got.dtype.kind == 'c') else got, want, dtype=False)
+    sc = T.var("sc", positive=True)
+    T.assume(sc >= 1e-2)
+    col = K.mat(T, [[sc if i == n - 1 else z for i in range(n)]], dt)[0]
+    got1 = F @ col
+    T.eq(f"{which}:{fname}(A) @ (s e_last)", got1.real if np.iscomplexobj(got1) or (T.sym and got1.dtype.kind == 'c') else got1, sc * want[:, n - 1], dtype=False)
+
+
 def cases(tier, seed):
     out = []
     FN = ["exp", "log", "pow0.5s", "pow-0.5s", "pow2.5", "apply_exp"]
@@ -336,6 +364,9 @@ def cases(tier, seed):
             for n in (2, 3):
                 out.append((f"{which}:{fname}:n{n}", case_krylov, dict(which=which, fname=fname, n=n), dict(abs_gen=False)))
     out.append(("rule:adjoint-complex", case_adjoint_complex, dict()))
+    for which in ("lanczos", "arnoldi"):
+        for fname, n, m in (("log", 2, None), ("exp", 3, None), ("pow0.5s", 3, 5), ("log", 3, None)):
+            out.append((f"{which}-columns:{fname}:n{n}" + (f"m{m}" if m else ""), case_krylov_columns, dict(which=which, fname=fname, n=n, max_iters=m), dict(abs_gen=False)))
     for fname in ("log", "pow-0.5s", "exp"):
         if fname != "pow-0.5s":  # 0**-0.5 is inf, which the exact model does not represent
             out.append((f"arnoldi-padded:{fname}:n2m4", case_krylov, dict(which="arnoldi", fname=fname, n=2, max_iters=4), dict(abs_gen=False)))
@@ -346,5 +377,5 @@ def cases(tier, seed):
 
 BOUNDS = dict(dense="Eigh on V diag(w) V^T (n = 2 symbolic rotation, n = 3 rational basis), Eig on P diag(w) P^-1 (n = 2), default / Auto / explicit algorithm",
               functions="exp, log, sqrt, isqrt, pow 2.5, apply_unary(exp); integer powers {0,1,2,3,9,2.0,-1,-2,10}", rules="Diagonal, ScalarMul, Identity, BlockDiag "
-              "with multiplicities, Transpose, Adjoint, exp(KronSum), pow(Kronecker)", krylov="Lanczos / Arnoldi algorithm objects, n in {2,3}, Krylov dimension 2",
+              "with multiplicities, Transpose, Adjoint, exp(KronSum), pow(Kronecker)", krylov="Lanczos / Arnoldi algorithm objects, n in {2,3}, Krylov dimension 2 (single vector), multi-column operands whose columns have Krylov dimension 2, 2, 1 in one batch",
               values="spectra, rotation parameter, vectors symbolic")
